@@ -1,4 +1,5 @@
 import PrioProofs.Prio3
+import PrioModel.Poplar1
 
 /-! # C17 — helper shares are independent of the measurement; the leader share is masked -/
 namespace Props.C17
@@ -51,3 +52,76 @@ theorem prio3_changed_outputs (C : FieldCtx F) (cfg : Cfg) (cv : Conv F) (xof : 
   | succ k => simp [ht]
 
 end Props.C17
+
+/-! ## the Poplar1 half: neither input share depends on the input string -/
+
+namespace Props.C17.Poplar1Half
+open Prio.Poplar1 Prio.Idpf
+
+variable {FI FL : Type}
+  [Add FI] [Sub FI] [Mul FI] [Neg FI] [Zero FI] [One FI] [BEq FI]
+  [Add FL] [Sub FL] [Mul FL] [Neg FL] [Zero FL] [One FL] [BEq FL]
+
+/-- for fixed sharding randomness, nonce and context, two input strings give the same two input
+    shares (IDPF key, correlated-randomness seed, inner and leaf correlated randomness): the input
+    enters only the public share's correction words -/
+theorem poplar1_shares_independent (cfg : Cfg) (ofI : Nat → FI) (ofL : Nat → FL) (xof : Prio.Poplar1.Xof)
+    (gI : Prg Prio.Poplar1.Bytes (Pair FI)) (gL : Prg Prio.Poplar1.Bytes (Pair FL))
+    (ctx : Prio.Poplar1.Bytes) (input input' : List Bool) (nonce k0 k1 pr0 pr1 pr2 : Prio.Poplar1.Bytes)
+    (pub pub' : PubShare FI FL) (s0 s1 s0' s1' : InputShare FI FL)
+    (h : shard cfg ofI ofL xof gI gL ctx input nonce k0 k1 pr0 pr1 pr2 = .ok (pub, s0, s1))
+    (h' : shard cfg ofI ofL xof gI gL ctx input' nonce k0 k1 pr0 pr1 pr2 = .ok (pub', s0', s1')) :
+    s0 = s0' ∧ s1 = s1' := by
+  unfold shard at h h'
+  by_cases e1 : input.length ≠ cfg.bits
+  · rw [if_pos e1] at h; cases h
+  by_cases e1' : input'.length ≠ cfg.bits
+  · rw [if_pos e1'] at h'; cases h'
+  rw [if_neg e1] at h
+  rw [if_neg e1'] at h'
+  by_cases e2 : cfg.bits = 0
+  · rw [if_pos e2] at h; cases h
+  rw [if_neg e2] at h h'
+  simp only at h h'
+  cases ht : (Rng.init xof pr2 usageShard ctx nonce cfg.fi.sz).take cfg.fi (cfg.bits - 1) with
+  | none => rw [ht] at h; cases h
+  | some r1 =>
+    obtain ⟨authsN, prng1⟩ := r1
+    rw [ht] at h h'
+    simp only at h h'
+    cases hg : prng1.get cfg.fl with
+    | none => rw [hg] at h; cases h
+    | some r2 =>
+      obtain ⟨authLeafN, prng2⟩ := r2
+      rw [hg] at h h'
+      simp only at h h'
+      cases hgen : gen gI gL input ((authsN.map ofI).map fun a => (⟨1, a⟩ : Pair FI)) ⟨1, ofL authLeafN⟩ k0 k1 with
+      | none => rw [hgen] at h; cases h
+      | some p =>
+        cases hgen' : gen gI gL input' ((authsN.map ofI).map fun a => (⟨1, a⟩ : Pair FI)) ⟨1, ofL authLeafN⟩ k0 k1 with
+        | none => rw [hgen'] at h'; cases h'
+        | some p' =>
+          rw [hgen] at h
+          rw [hgen'] at h'
+          simp only at h h'
+          cases hc : corrInnerLoop ofI cfg.fi (authsN.map ofI) prng2
+              (Rng.init xof pr0 usageCorrInner ctx ([0] ++ nonce) cfg.fi.sz)
+              (Rng.init xof pr1 usageCorrInner ctx ([1] ++ nonce) cfg.fi.sz) with
+          | none => rw [hc] at h; cases h
+          | some r3 =>
+            obtain ⟨ci0, ci1, prng3⟩ := r3
+            rw [hc] at h h'
+            simp only at h h'
+            cases hl : nextCorrShares ofL cfg.fl prng3
+                (Rng.init xof pr0 usageCorrLeaf ctx ([0] ++ nonce) cfg.fl.sz)
+                (Rng.init xof pr1 usageCorrLeaf ctx ([1] ++ nonce) cfg.fl.sz) (ofL authLeafN) with
+            | none => rw [hl] at h; cases h
+            | some r4 =>
+              obtain ⟨cl0, cl1, _, _, _⟩ := r4
+              rw [hl] at h h'
+              simp only [Res.ok.injEq, Prod.mk.injEq] at h h'
+              obtain ⟨_, a0, a1⟩ := h
+              obtain ⟨_, b0, b1⟩ := h'
+              exact ⟨a0.symm.trans b0, a1.symm.trans b1⟩
+
+end Props.C17.Poplar1Half
